@@ -244,6 +244,63 @@ def _op_case(args, special=False):
     return {"name": name, "fails": fails, "args": args}
 
 
+def derived_tensor_cases(only=None):
+    """tensors *derived* from one that already holds a gradient (copy(), copy.copy/deepcopy, astype, tensor(x), astensor
+    with another dtype, a view): editing the gradient of one in place changes the other's only if the two tensors share
+    memory; the derived tensor's data is its own unless it is a view.  -> [(name, message)]"""
+    import copy as _copy
+
+    out = []
+    makers = [
+        ("x.copy()", lambda x: x.copy()),
+        ("x.copy(constant=False)", lambda x: x.copy(constant=False)),
+        ("copy.copy(x)", lambda x: _copy.copy(x)),
+        ("copy.deepcopy(x)", lambda x: _copy.deepcopy(x)),
+        ("x.astype(float32)", lambda x: x.astype(np.float32)),
+        ("x.astype(float64)", lambda x: x.astype(np.float64)),
+        ("mg.tensor(x)", lambda x: mg.tensor(x)),
+        ("mg.Tensor(x)", lambda x: mg.Tensor(x)),
+        ("mg.astensor(x, dtype=float32)", lambda x: mg.astensor(x, dtype=np.float32)),
+        ("x[...]", lambda x: x[...]),
+        ("x[1:]", lambda x: x[1:]),
+    ]
+    for name, mk in makers:
+        if only is not None and name != only:
+            continue
+        for edit in ("derived", "original"):
+            x = mg.tensor([1.0, 2.0, 3.0])
+            (x * x).sum().backward()
+            try:
+                y = mk(x)
+            except Exception as e:  # noqa: BLE001
+                out.append((name, f"raised {type(e).__name__}"))
+                break
+            gx, gy = x.grad, y.grad
+            if gx is None:
+                out.append((name, "the original lost its gradient when the derived tensor was made"))
+                break
+            share_data = bool(np.shares_memory(x.data, y.data))
+            if gy is None:
+                continue
+            gx0, gy0 = np.array(gx), np.array(gy)
+            try:
+                if edit == "derived":
+                    gy[...] = -7.0
+                else:
+                    gx[...] = -7.0
+            except Exception:  # noqa: BLE001  (a read-only gradient cannot be edited: nothing to observe)
+                continue
+            changed_other = not np.array_equal(x.grad if edit == "derived" else y.grad, gx0 if edit == "derived" else gy0)
+            if changed_other and not share_data:
+                out.append((name, f"editing the gradient of the {edit} tensor in place changed the other one's although the two "
+                            "tensors share no memory"))
+                break
+            if not np.array_equal(x.data, [1.0, 2.0, 3.0]):
+                out.append((name, "editing a gradient changed a tensor's data"))
+                break
+    return out
+
+
 def nontrivial(prog):
     return len(prog) >= 6
 
@@ -255,7 +312,8 @@ def run(ctx: Ctx) -> Outcome:
                 "every tensor's data around every statement and around backward; pairwise shares_memory of all stored "
                 "gradients, with all data and with the seed; in-place edit of each .grad observed on all others; plus the same "
                 "for 20+19 op/layer families with owning, non-owning and float32 seeds, and again with memory guarding off "
-                "(plain values and planted zeros/ties)")
+                "(plain values and planted zeros/ties); and tensors derived from one that holds a gradient (copy, deepcopy, astype, "
+                "tensor(x), astensor, views): editing one gradient changes the other only if the tensors share memory")
     engcheck.report(out, results, "C12", oracle)
     from .c05 import op_cases
     from .c14 import layer_cases
@@ -279,6 +337,11 @@ def run(ctx: Ctx) -> Outcome:
                 seen.add(sig)
                 out.violations.append(Violation(sig, f"{r['name']}: {f}", {"kind": "op", "args": list(r["args"])}))
     out.stats["op_cases"] = hist
+    for name, msg in derived_tensor_cases():
+        out.violations.append(Violation(f"C12|aliasing|derived:{name}", f"{name}: {msg}", {"kind": "derived", "name": name}))
+    out.evaluations += 22
+    for k in range(22):
+        out.nontrivial.add(stable_hash(["derived", k]))
     return out
 
 
@@ -304,6 +367,10 @@ def check_witness(w):
 
 def replay(data) -> bool:
     r = data["replay"]
+    if r.get("kind") == "derived":
+        res = derived_tensor_cases(only=r["name"])
+        print(res)
+        return bool(res)
     if r.get("kind") == "op":
         res = op_case(tuple(r["args"]))
         print(res)
